@@ -25,6 +25,8 @@ type Config struct {
 	Shadow bool `json:"shadow,omitempty"`
 	// DryFalse: dig.DryRun(false) is passed explicitly (same as no option)
 	DryFalse bool `json:"dryfalse,omitempty"`
+	// DryBoth: DryRun(true) followed by DryRun(false): the later option wins
+	DryBoth bool `json:"dryboth,omitempty"`
 }
 
 type Case struct {
@@ -281,6 +283,9 @@ func (c *Case) Short() string {
 	}
 	if c.Cfg.DryFalse {
 		sb.WriteString("DryRun(false) ")
+	}
+	if c.Cfg.DryBoth {
+		sb.WriteString("DryRun(true),DryRun(false) ")
 	}
 	if c.Cfg.Shadow {
 		sb.WriteString("after-shadow-container ")
